@@ -5,7 +5,10 @@
 (* (M) abstract problem: a batch record = finite episodic MDP instance (fields of        *)
 (*     lib/MDP.tla, every action available everywhere) + configuration                   *)
 (*       thr   sample threshold (num_transition_samples)                                 *)
-(*       rmax  configured maximal reward (integer, >= every reward that can be met)      *)
+(*       rmax  the MDP's maximal reward (integer, >= every reward that can be met); the  *)
+(*             statement's bound is rmax / (1 - gamma) for THIS value, also when the      *)
+(*             learner was configured with a larger one and did not refuse it            *)
+(*       lst   lst[s] = 1 iff s is in the MDP's state list                               *)
 (* (O) exact oracle: the fixed point of the Bellman equation of the empirical optimistic *)
 (*     model (SolveExact): known pairs use the first thr samples, every other pair is a  *)
 (*     self-loop worth Vmax = rmax / (1 - gamma).  Computed with the shared optimal      *)
@@ -158,6 +161,8 @@ JudgeQ(b, c, t, rs, o) ==
      \cup (IF \E s \in rows : \E a \in Ac(b) : IsKnown(b, c, s, a) /\ ResidBad(b, t, rs, o, s, a)
            THEN {"empirical-bellman-residual"} ELSE {})
      \cup (IF (seen \cup Reach(b)) \ rows # {} THEN {"reachable-state-without-q"} ELSE {})
+     \* every state the MDP declares (b.lst[s] = 1: member of its state list) has pairs that were tried 0 times
+     \cup (IF {s \in St(b) : b.lst[s] = 1} \ (rows \cup seen \cup Reach(b)) # {} THEN {"listed-state-without-q"} ELSE {})
 \* the value table is explained by the exact machine (only where the oracle is feasible)
 JudgeMachine(b, q, o) ==
   IF b.orc = 1 /\ \E s \in St(b) : HasRow(b, o, s) /\ \E a \in Ac(b) : FarAt(b, q, o, s, a)
